@@ -117,6 +117,9 @@ def norm_pattern(pattern: AnyStr, normalize: bool | None, is_raw_chars: bool) ->
             char = bytes([int(m.group(3)[2:], 16)]) if is_bytes else chr(int(m.group(3)[2:], 16))
         elif is_raw_chars and not is_bytes and m.group(5):
             char = unicodedata.lookup(m.group(5)[3:-1])
+        elif not is_bytes and m.group(5):
+            # Without raw character translation this is just an escaped `N`; what follows is ordinary pattern text
+            char = m.group(5)[:2] + pat.sub(norm, m.group(5)[2:])
         elif not is_raw_chars or m.group(5 if is_bytes else 6):
             char = m.group(0)
         else:
